@@ -276,6 +276,22 @@ func (ex *Exec) step(st *State) (extra []*State) {
 			}
 			f.set(x, Ptr{Obj: b.Obj, Path: extendPath(b.Path, mkElem(idx, n))})
 		case Slice:
+			if idx.Op != OConst && b.Len <= 16 && !isScalarType(x.X.Type().Underlying().(*types.Slice).Elem()) {
+				// symbolic index into a small slice of pointers/aggregates with references: case split
+				for i, v := range f.locals {
+					if vt, ok := v.(*Term); ok && vt == ex.operand(st, f, x.Index) {
+						_ = i
+					}
+				}
+				raw := ex.operand(st, f, x.Index).(*Term)
+				if raw.Op != OConst {
+					hi := uint64(b.Len)
+					if hi > 0 {
+						hi--
+					}
+					return ex.splitValue(st, f, raw, 0, hi, func(s *State, k uint64) {})
+				}
+			}
 			var ok bool
 			extra, ok = ex.checkIndex(st, idx, b.Len, "slice")
 			if !ok {
@@ -746,3 +762,20 @@ func (ex *Exec) threadExit(st *State, th *Thread) {
 }
 
 var _ = token.NoPos
+
+func isScalarType(t types.Type) bool {
+	switch u := t.Underlying().(type) {
+	case *types.Basic:
+		return u.Info()&types.IsString == 0 && u.Kind() != types.UnsafePointer
+	case *types.Struct:
+		for i := 0; i < u.NumFields(); i++ {
+			if !isScalarType(u.Field(i).Type()) {
+				return false
+			}
+		}
+		return true
+	case *types.Array:
+		return isScalarType(u.Elem())
+	}
+	return false
+}
